@@ -29,6 +29,10 @@ ASSUMPTIONS = [
     "success and no datum is out of range at the fitted parameters",
     "eval_func / shape handling of callable mean and trend is re-derived by the harness (callable evaluated on "
     "the position tuple resp. the 'ij' meshgrid), not modelled in Lean",
+    "which constructor argument of a field class becomes which pipeline slot (Model.Norm.slots: Simple / generic Krige / SRF take "
+    "mean, normalizer, trend; Ordinary / Universal / ExtDrift take normalizer, trend; Detrended takes the trend only) is written by "
+    "hand from krige/methods.py and field/srf.py and tied to the code by comparing outputs and prepared conditioning values of the "
+    "real objects with the model evaluated on the caller's arguments",
 ]
 
 KINDS = ["Normalizer", "LogNormal", "BoxCox", "BoxCoxShift", "YeoJohnson", "Modulus", "Manly"]
@@ -354,6 +358,279 @@ def corr_pipeline(ctx, rng, out):
         if len(out["samples"]) < 5 and case["route"] == "srf":
             out["samples"].append(dict(case=case, raw=np.asarray(raw).ravel()[:3].tolist(),
                                        real=np.asarray(app).ravel()[:3].tolist(), model=unbits(r[0])[:3].tolist()))
+
+
+# ------------------------------------------------------------------------------------------ field classes x pipeline
+FIELD_CLASSES = ["Simple", "Ordinary", "Universal", "ExtDrift", "Detrended", "Krige", "SRF"]
+HAS_MEAN = {"Simple", "Krige", "SRF"}
+HAS_NORM = {"Simple", "Ordinary", "Universal", "ExtDrift", "Krige", "SRF"}
+FITS_NORM = {"Simple", "Ordinary", "Universal", "ExtDrift", "Krige"}
+
+
+def _maxdiff(a, b):
+    d = np.abs(np.asarray(a, dtype=float) - np.asarray(b, dtype=float))
+    d = d[np.isfinite(d)]
+    return float(d.max()) if d.size else float("nan")
+
+
+def _cls_ext(*pos):
+    """external drift variable of the class-pipeline cases"""
+    return np.cos(np.asarray(pos[0], dtype=float) / 2.0) + 0.2 * np.asarray(pos[-1], dtype=float)
+
+
+def _cls_drift(*pos):
+    return np.sin(np.asarray(pos[0], dtype=float) / 2.0)
+
+
+def class_setup(rng, cname):
+    """one configuration of a field class: normalizer (also fitted) x constant / callable / no mean and trend x dim x mesh.
+       Returns None when the conditioning values leave the normalizer's range"""
+    import gstools as gs
+    kind = KINDS[int(rng.randint(0, len(KINDS)))] if cname in HAS_NORM else "Normalizer"
+    l = float(rng.choice([-1.0, -0.5, 0.0, 0.5, 1.0, 2.0, 2.5, float(rng.uniform(-1.5, 3))]))
+    s = 4.0
+    dim = int(rng.choice([1, 2, 3], p=[0.35, 0.45, 0.2]))
+    mesh = str(rng.choice(["unstructured", "structured"]))
+    if mesh == "structured":
+        pos = [np.linspace(0, 3, int(k)) + 0.1 * j for j, k in enumerate(rng.permutation([2, 3, 4])[:dim])]
+        grid = np.meshgrid(*pos, indexing="ij")
+    else:
+        pos = [rng.uniform(0, 3, size=7) for _ in range(dim)]
+        grid = pos
+    c = float(rng.uniform(-0.3, 0.3))
+    c2_ = float(rng.choice([1.5, -0.75, 0.4]))
+    a = rng.uniform(-0.1, 0.1, size=dim)
+    b = rng.uniform(-0.2, 0.2, size=dim)
+    mfun = lambda *p_: c + sum(ai * np.asarray(pi, dtype=float) for ai, pi in zip(a, p_))          # noqa
+    tfun = lambda *p_: c2_ + sum(bi * np.asarray(pi, dtype=float) for bi, pi in zip(b, p_))        # noqa
+    zero = lambda *p_: 0.0 * np.asarray(p_[0], dtype=float)                                        # noqa
+    mopts = [("none", None, zero), ("const", c, lambda *p_: c + zero(*p_)), ("callable", mfun, mfun)]
+    topts = [("none", None, zero), ("const", c2_, lambda *p_: c2_ + zero(*p_)), ("callable", tfun, tfun)]
+    mlab, mval, meval = mopts[int(rng.randint(0, 3))] if cname in HAS_MEAN else mopts[0]
+    tlab, tval, teval = topts[int(rng.randint(1, 3))] if cname == "Detrended" else topts[int(rng.randint(0, 3))]
+    # conditioning points on a jittered grid (well separated), values inside the range of the pipeline
+    side = {1: 9, 2: 4, 3: 3}[dim]
+    g = np.array(np.meshgrid(*([np.arange(side)] * dim), indexing="ij")).reshape(dim, -1)
+    drift = None
+    ext = False
+    unbiased = True
+    if cname == "Universal":
+        drift = ["linear", [_cls_drift]][int(rng.randint(0, 2))]
+    elif cname == "ExtDrift":
+        ext = True
+    elif cname == "Krige":
+        drift = [None, "linear", [_cls_drift]][int(rng.randint(0, 3))]
+        ext = bool(rng.rand() < 0.5)
+        unbiased = bool(rng.rand() < 0.6)
+    n = int(rng.randint(5, 8)) + (dim if drift == "linear" else (1 if drift else 0)) + int(ext)
+    idx = rng.choice(g.shape[1], size=min(n, g.shape[1]), replace=False)
+    cpos = [g[d, idx] * (3.0 / (side - 1)) + rng.uniform(-0.1, 0.1, size=len(idx)) for d in range(dim)]
+    n = len(idx)
+    cm, ct = meval(*cpos) + 0.0 * cpos[0], teval(*cpos) + 0.0 * cpos[0]
+    fit = bool(cname in FITS_NORM and kind in ("BoxCox", "YeoJohnson", "Modulus", "Manly") and rng.rand() < 0.25)
+    with warnings.catch_warnings(), np.errstate(all="ignore"):
+        warnings.simplefilter("ignore")
+        cval = ct + make(kind, l, s).denormalize(cm + rng.uniform(-0.3, 0.3, size=n))
+    if not np.isfinite(cval).all():
+        return None
+    model = gs.Exponential(dim=dim, var=0.05, len_scale=1.0)
+    case = dict(cls=cname, kind=kind, lmbda=l, shift=s, dim=dim, mesh=mesh, mean=mlab, trend=tlab, fit_normalizer=fit,
+                drift=("callable" if isinstance(drift, list) else drift), ext_drift=ext, unbiased=unbiased)
+    return dict(cname=cname, kind=kind, l=l, s=s, dim=dim, mesh=mesh, pos=pos, grid=grid, mval=mval, tval=tval,
+                tm=np.broadcast_to(meval(*grid), np.shape(grid[0])) + 0.0, tt=np.broadcast_to(teval(*grid), np.shape(grid[0])) + 0.0,
+                cm=cm, ct=ct, cpos=cpos, cval=cval, model=model, drift=drift, ext=ext, unbiased=unbiased, fit=fit, case=case,
+                seed=int(rng.randint(1, 10**6)))
+
+
+def class_build(cfg, bare=None, nz=None):
+    """the object of the configuration; `bare` = conditioning values for the same class WITHOUT mean / normalizer / trend"""
+    import gstools as gs
+    cn, model, cpos = cfg["cname"], cfg["model"], cfg["cpos"]
+    if cn == "SRF":
+        if bare is not None:
+            return gs.SRF(model, seed=cfg["seed"], mode_no=16)
+        return gs.SRF(model, mean=cfg["mval"], normalizer=nz, trend=cfg["tval"], seed=cfg["seed"], mode_no=16)
+    full = bare is None
+    val = cfg["cval"] if full else bare
+    ext_c = _cls_ext(*cpos) if cfg["ext"] else None
+    fitkw = {"fit_normalizer": True} if (full and cfg["fit"]) else {}
+    if cn == "Simple":
+        return gs.krige.Simple(model, cpos, val, **(dict(mean=cfg["mval"], normalizer=nz, trend=cfg["tval"], **fitkw) if full else {}))
+    if cn == "Ordinary":
+        return gs.krige.Ordinary(model, cpos, val, **(dict(normalizer=nz, trend=cfg["tval"], **fitkw) if full else {}))
+    if cn == "Universal":
+        return gs.krige.Universal(model, cpos, val, cfg["drift"], **(dict(normalizer=nz, trend=cfg["tval"], **fitkw) if full else {}))
+    if cn == "ExtDrift":
+        return gs.krige.ExtDrift(model, cpos, val, ext_c, **(dict(normalizer=nz, trend=cfg["tval"], **fitkw) if full else {}))
+    if cn == "Detrended":
+        if full:
+            return gs.krige.Detrended(model, cpos, val, cfg["tval"])
+        return gs.krige.Krige(model, cpos, val, unbiased=False)       # "simple kriging with zero mean" of the detrended data
+    return gs.krige.Krige(model, cpos, val, drift_functions=cfg["drift"], ext_drift=ext_c, unbiased=cfg["unbiased"],
+                          **(dict(mean=cfg["mval"], normalizer=nz, trend=cfg["tval"], **fitkw) if full else {}))
+
+
+def class_call_kw(cfg):
+    if not cfg["ext"]:
+        return {}
+    return {"ext_drift": _cls_ext(*cfg["grid"]).reshape(-1)}
+
+
+def corr_class_pipeline(ctx, rng, out):
+    """every field class (Simple, Ordinary, Universal, ExtDrift, Detrended, generic Krige with drift_functions / ext_drift /
+       unbiased, SRF, and CondSRF on top of each kriging class): output cells and prepared conditioning values of the REAL
+       object against Model.Norm.classOutput / classCond evaluated on the CALLER's mean / trend / normalizer arguments"""
+    import gstools as gs
+    n = ctx.scale(280, 2100)
+    ops, meta = [], []
+    for t in range(n):
+        cname = FIELD_CLASSES[t % len(FIELD_CLASSES)]
+        cfg = class_setup(rng, cname)
+        if cfg is None:
+            continue
+        case = cfg["case"]
+        try:
+            with warnings.catch_warnings(), np.errstate(all="ignore"):
+                warnings.simplefilter("ignore")
+                nz = make(cfg["kind"], cfg["l"], cfg["s"]) if cname in HAS_NORM else None
+                obj = class_build(cfg, nz=nz)
+                kw = class_call_kw(cfg)
+                outs = []
+                if cname == "SRF":
+                    raw = np.array(obj(cfg["pos"], mesh_type=cfg["mesh"], post_process=False, store=False))
+                    res = np.array(obj(cfg["pos"], mesh_type=cfg["mesh"], store=False))
+                    outs.append(("SRF", raw, res))
+                    cond = None
+                else:
+                    raw = np.array(obj(cfg["pos"], mesh_type=cfg["mesh"], post_process=False, return_var=False, store=False, **kw))
+                    res = np.array(obj(cfg["pos"], mesh_type=cfg["mesh"], return_var=False, store=False, **kw))
+                    outs.append((cname, raw, res))
+                    cond = np.array(obj._krige_cond)[: len(cfg["cval"])]
+                    if t % 3 == 0:
+                        csrf = gs.CondSRF(obj, seed=cfg["seed"], mode_no=16)
+                        craw = np.array(csrf(cfg["pos"], mesh_type=cfg["mesh"], seed=cfg["seed"], post_process=False, store=False, **kw))
+                        cres = np.array(csrf(cfg["pos"], mesh_type=cfg["mesh"], seed=cfg["seed"], store=False, **kw))
+                        outs.append(("CondSRF(%s)" % cname, craw, cres))
+                # the parameters the object ends up with (fit_normalizer=True changes them): public attributes
+                l_, s_ = cfg["l"], cfg["s"]
+                if cfg["fit"]:
+                    l_ = float(getattr(obj.normalizer, "lmbda", l_))
+                    s_ = float(getattr(obj.normalizer, "shift", s_))
+        except Exception as ex:
+            out["disagreements"].append(dict(what=f"class-pipeline:{cname}:exception", detail=f"{type(ex).__name__}: {ex}", **case))
+            continue
+        for lab, raw, res in outs:
+            ops.append(dict(op="norm_class_pipeline", kind=cfg["kind"], lmbda=f2b(l_), shift=f2b(s_), **{"class": cname},
+                            raw=fbits(raw.ravel()), mean=fbits(np.ascontiguousarray(cfg["tm"]).ravel()),
+                            trend=fbits(np.ascontiguousarray(cfg["tt"]).ravel()),
+                            cval=fbits(cfg["cval"] if cond is not None else []), cmean=fbits(cfg["cm"] if cond is not None else []),
+                            ctrend=fbits(cfg["ct"] if cond is not None else [])))
+            meta.append((dict(case, object=lab), cfg["kind"], l_, res, cond))
+    res_ = run_driver(ops)
+    for (case, kind, l, real_out, real_cond), r in zip(meta, res_):
+        if isinstance(r, dict) and "error" in r:
+            out["disagreements"].append(dict(what="driver error class pipeline", detail=r["error"], **case))
+            continue
+        out["evaluations"] += 1
+        key = f"class-pipeline:{case['object']}:{case['mean']}/{case['trend']}:{case['mesh']}" + (":fitted" if case["fit_normalizer"] else "")
+        out["distribution"][key] = out["distribution"].get(key, 0) + 1
+        out["keys"].add((key, kind, l, case["dim"]))
+        out["elements"] += int(np.size(real_out)) + (0 if real_cond is None else int(np.size(real_cond)))
+        bad = cmp_arrays(kind, l, np.asarray(real_out).ravel(), unbits(r[0]))
+        if bad:
+            i = bad[0]
+            out["disagreements"].append(dict(what=f"class-pipeline:output:{case['object']}",
+                                             detail="output of the object != trend + denormalize(mean + raw) with the caller's arguments in the "
+                                                    "slots the class documents", index=i,
+                                             real=None if isinstance(i, str) else float(np.asarray(real_out).ravel()[i]),
+                                             model=None if isinstance(i, str) else float(unbits(r[0])[i]), **case))
+        if real_cond is not None and not case["object"].startswith("CondSRF"):
+            bad = cmp_arrays(kind, l, real_cond, unbits(r[1]))
+            if bad:
+                i = bad[0]
+                out["disagreements"].append(dict(what=f"class-pipeline:conditions:{case['object']}",
+                                                 detail="prepared conditioning values != normalize(cond_val - trend) - mean with the caller's "
+                                                        "arguments", index=i, real=None if isinstance(i, str) else float(real_cond[i]),
+                                                 model=None if isinstance(i, str) else float(unbits(r[1])[i]), **case))
+
+
+def search_class_pipeline(ctx, rng, add, deep):
+    """every field class with mean x normalizer (also fitted) x trend against the pipeline done BY HAND around an object of the
+       same class built WITHOUT mean / normalizer / trend: conditioning values prepared as normalize(cond_val - trend) - mean,
+       output post-processed as trend + denormalize(mean + raw); plus the public slots of the object"""
+    import gstools as gs
+    n = ctx.scale(175, 1400) * (2 if deep else 1)
+    ev = 0
+    for t in range(n):
+        cname = FIELD_CLASSES[t % len(FIELD_CLASSES)]
+        cfg = class_setup(rng, cname)
+        if cfg is None:
+            continue
+        case = dict(cfg["case"], cond_pos=[c_.tolist() for c_ in cfg["cpos"]], cond_val=cfg["cval"].tolist(),
+                    pos=[np.asarray(p_).tolist() for p_ in cfg["pos"]], seed=cfg["seed"])
+        try:
+            with warnings.catch_warnings(), np.errstate(all="ignore"):
+                warnings.simplefilter("ignore")
+                nz = make(cfg["kind"], cfg["l"], cfg["s"]) if cname in HAS_NORM else None
+                full = class_build(cfg, nz=nz)
+                oracle = make(cfg["kind"], cfg["l"], cfg["s"])      # a second instance, explicit composition
+                if cfg["fit"]:
+                    oracle.fit(cfg["cval"] - cfg["ct"])
+                prep = oracle.normalize(cfg["cval"] - cfg["ct"]) - cfg["cm"]
+                bare = class_build(cfg, bare=prep)
+                kw = class_call_kw(cfg)
+                call = dict(mesh_type=cfg["mesh"], store=False)
+                if cname == "SRF":
+                    got = np.array(full(cfg["pos"], **call))
+                    braw = np.array(bare(cfg["pos"], **call))
+                    gvar = bvar = None
+                else:
+                    got, gvar = full(cfg["pos"], **call, **kw)
+                    braw, bvar = bare(cfg["pos"], **call, **kw)
+                    got, braw = np.array(got), np.array(braw)
+                want = cfg["tt"] + oracle.denormalize(cfg["tm"] + braw)
+            ev += 2
+            tol = dict(rtol=1e-10, atol=1e-10, equal_nan=True)
+            if not np.allclose(got, want, **tol):
+                add(f"api:{cname}:pipeline-by-hand", f"{cname} output != trend + denormalize(mean + raw) with raw from the same class built "
+                    "WITHOUT mean / normalizer / trend on conditioning values prepared by hand as normalize(cond_val - trend) - mean",
+                    dict(case, max_abs_diff=_maxdiff(got, want)))
+            if gvar is not None and not np.allclose(np.array(gvar), np.array(bvar), **tol):
+                add(f"api:{cname}:variance-by-hand", f"{cname} kriging variance depends on mean / normalizer / trend", case)
+            if cname != "SRF":
+                ev += 1
+                if not np.allclose(np.array(full._krige_cond)[: len(prep)], prep, rtol=1e-13, atol=1e-13, equal_nan=True):
+                    add(f"api:{cname}:conditions-by-hand", f"{cname}: prepared conditioning values != normalize(cond_val - trend) - mean "
+                        "(caller's arguments)", case)
+                # CondSRF on top: conditioning happens on the prepared values, the pipeline around it
+                if t % 2 == 0:
+                    with warnings.catch_warnings(), np.errstate(all="ignore"):
+                        warnings.simplefilter("ignore")
+                        cgot = np.array(gs.CondSRF(full, seed=cfg["seed"], mode_no=16)(cfg["pos"], **call, **kw))
+                        craw = np.array(gs.CondSRF(bare, seed=cfg["seed"], mode_no=16)(cfg["pos"], **call, **kw))
+                        cwant = cfg["tt"] + oracle.denormalize(cfg["tm"] + craw)
+                    ev += 2
+                    if not np.allclose(cgot, cwant, **tol):
+                        add(f"api:CondSRF({cname}):pipeline-by-hand", f"CondSRF on {cname}: output != trend + denormalize(mean + conditioned "
+                            "field of the object without mean / normalizer / trend)", dict(case, max_abs_diff=_maxdiff(cgot, cwant)))
+            # public slots: the caller's arguments sit where the class documents them
+            slots_ok = True
+            for name, given, has in (("mean", cfg["mval"], cname in HAS_MEAN), ("trend", cfg["tval"], True)):
+                attr = getattr(full, name)
+                exp = given if has else None
+                if callable(exp) or exp is None:
+                    slots_ok = slots_ok and (attr is exp)
+                else:
+                    slots_ok = slots_ok and (not callable(attr)) and attr is not None and float(attr) == float(exp)
+            if cname in HAS_NORM:
+                slots_ok = slots_ok and (full.normalizer is nz)
+            ev += 1
+            if not slots_ok:
+                add(f"api:{cname}:slots", f"{cname}: the mean / trend / normalizer attributes of the object are not the caller's arguments",
+                    dict(case, mean_attr=repr(full.mean), trend_attr=repr(full.trend), normalizer_attr=repr(full.normalizer)))
+        except Exception as ex:
+            add(f"api:{cname}:pipeline-by-hand:exception", f"{type(ex).__name__}: {ex}", case)
+    return ev
 
 
 # ------------------------------------------------------------------------------------------ fit bookkeeping
@@ -729,6 +1006,7 @@ def correspondence(ctx):
     corr_normalizers(ctx, rng, out)
     corr_pipeline(ctx, np.random.RandomState(ctx.seed + 1801), out)
     corr_fit(ctx, np.random.RandomState(ctx.seed + 1802), out)
+    corr_class_pipeline(ctx, np.random.RandomState(ctx.seed + 1803), out)
     keys = out.pop("keys")
     out["distribution"]["driver_ops"] = out["evaluations"]
     out["evaluations"] = max(out["evaluations"], out["elements"])   # one evaluation = one compared array element / scalar op
@@ -737,7 +1015,11 @@ def correspondence(ctx):
                    "x {ranges+isclose flags (exact), normalize, denormalize, derivative (elementwise incl. NaN mask, +-inf, "
                    "boundaries, nextafter(boundary), out-of-range; warning flag), loglikelihood+kernel}; pipelines through "
                    "apply_mean_norm_trend/remove_trend_norm_mean, Field(field=raw), SRF post_process on/off, Krige._krige_cond "
-                   "with none/const/callable mean and trend, scalar/vector, structured/unstructured; Normalizer.fit / __init__(data=) / "
+                   "with none/const/callable mean and trend, scalar/vector, structured/unstructured; every field class (Simple, Ordinary, "
+                   "Universal with linear / callable drift, ExtDrift, Detrended, generic Krige with drift_functions / ext_drift / unbiased "
+                   "on and off, SRF, and CondSRF on top of every kriging class) x normalizer (also fit_normalizer=True) x none/const/callable "
+                   "mean and trend x dim 1-3 x structured/unstructured: output cells and prepared conditioning values of the real object == "
+                   "Model.Norm.classOutput / classCond on the CALLER's arguments; Normalizer.fit / __init__(data=) / "
                    "remove_trend_norm_mean(fit_normalizer=True) / Krige(fit_normalizer=True) with scipy.optimize of normalizer/base.py "
                    "replaced by a scripted optimiser: 7 classes + user-defined subclasses with 1-4 arbitrarily named parameters x every "
                    "subset of skipped names (+ unknown names, duplicates, tuple, None) x constructor keywords x caller bracket / x0 / tol "
@@ -1443,6 +1725,8 @@ def search(ctx, deep=False):
                     add("api:srf:vector-pipeline", "vector SRF output != trend + denormalize(mean + raw field)", case)
         except Exception as ex:
             add("api:pipeline:exception", f"{type(ex).__name__}: {ex}", case)
+    # --- every field class: the pipeline by hand around an object without mean / normalizer / trend
+    ev += search_class_pipeline(ctx, np.random.RandomState(ctx.seed + 1820), add, deep)
     # --- replay of the Lean witness `norm_denorm_full_false` on the implementation (observation, see final report)
     with warnings.catch_warnings(), np.errstate(all="ignore"):
         warnings.simplefilter("ignore")
@@ -1460,6 +1744,11 @@ def search(ctx, deep=False):
     return {"evaluations": ev, "violations": viol,
             "summary": f"{ev} real-API evaluations: round trips, range image, monotone grids, derivative vs FD and mpmath formula, "
                        f"masking probes, likelihood vs scipy.stats Gaussian + profile maximality, fit local max, SRF/Krige pipelines; "
+                       f"every field class (Simple, Ordinary, Universal, ExtDrift, Detrended, generic Krige with drift_functions / ext_drift, "
+                       f"SRF, CondSRF on each kriging class) x normalizer (also fitted) x none / constant / callable mean and trend x dim 1-3 x "
+                       f"structured / unstructured against the pipeline done by hand around an object of the same class WITHOUT mean / "
+                       f"normalizer / trend (conditions normalize(cond_val - trend) - mean, output trend + denormalize(mean + raw), variance "
+                       f"untouched, public mean / trend / normalizer attributes are the caller's arguments); "
                        f"fit(): {fit_stats['fits']} real fits over every class x every subset of skipped names x start values x optimiser "
                        f"keyword arguments + constructor data= / remove_trend_norm_mean / Krige fit_normalizer (skipped parameters "
                        f"bit-identical, returned dict == object == optimiser result), {fit_stats['ml_checked']} of them compared with "
